@@ -17,7 +17,7 @@ FAMILIES = ["F1", "F2", "F3", "F4", "F4c", "F5", "F6", "F7"]
 BOUNDS = {
     "quick": {"field_cap": 2, "pad_cap": 2, "families": FAMILIES, "sections": ["Well", "Curves", "Parameter", None], "task_budget_s": 600,
               "alphabet": "printable Latin-1 (32-126, 160-254 except 0xB5 0xDF), blanks/tabs as padding"},
-    "thorough": {"field_cap": 4, "pad_cap": 3, "families": FAMILIES, "sections": SECTIONS, "task_budget_s": 3300,
+    "thorough": {"field_cap": 3, "pad_cap": 2, "families": FAMILIES, "sections": SECTIONS, "task_budget_s": 3300,
                  "alphabet": "printable Latin-1 (32-126, 160-254 except 0xB5 0xDF), blanks/tabs as padding"},
 }
 ASSUMPTIONS = [
@@ -70,7 +70,11 @@ def tasks(tier):
         for sec in b["sections"]:
             if fam in ("F4", "F4c") and sec != "Parameter":
                 continue
-            out.append({"name": "%s/%s" % (fam, sec), "params": {"family": fam, "section": sec, "fcap": b["field_cap"], "pcap": b["pad_cap"]},
+            fcap = b["field_cap"]
+            if tier == "thorough":
+                # per-family capacities measured against the 120 s query limit: the period-less form is cheap, the time forms are not
+                fcap = {"F2": 4, "F4": 2, "F4c": 2}.get(fam, fcap)
+            out.append({"name": "%s/%s" % (fam, sec), "params": {"family": fam, "section": sec, "fcap": fcap, "pcap": b["pad_cap"]},
                         "weight": 3 if sec == "Parameter" else 1})
     # the parse of a line does not depend on the lines parsed before it: a line of the other basic form
     # (with / without a period before the colon) of the same section kind goes first
